@@ -56,6 +56,14 @@ def replay(rep: Report, cases: list, thorough: bool):
     from flowjax.flows import _affine_with_min_scale
     from flowjax.wrappers import WeightNormalization, unwrap
 
+    drift = {}
+
+    def drifted(family, msg):
+        """implementation layer: the mechanism computes something else than the model, the clause of C11 still holds."""
+        drift[family] = drift.get(family, 0) + 1
+        if drift[family] <= 2:
+            rep.note(f"model-drift Constraints.{family}: {msg}")
+
     fam = {}
     for c in cases:
         fam.setdefault(c["fam"], []).append(c)
@@ -98,12 +106,9 @@ def replay(rep: Report, cases: list, thorough: bool):
             for i, c in enumerate(cs):
                 rep.count(1, ("constraints", "planar", json.dumps(c, sort_keys=True), str(dtype.__name__)))
                 label = f"Planar(negative_slope={slope}, {dtype.__name__}) w={Wr[i].tolist()} u_raw={Ur[i].tolist()}"
-                if not np.all(np.isfinite(UH[i])) or dev[i] > tol[i]:
-                    rep.violation({"clause": "guard PlanarInvertible", "cfg.cause": "constrained u differs from u + (m(w.u) - w.u) w / |w|^2",
-                                   "case": c, "dtype": dtype.__name__},
-                                  f"{label}: get_act_scale() = {UH[i].tolist()}, the projection of u onto w.u = m(w.u) is {exp_uh[i].tolist()} "
-                                  f"(|difference| {dev[i]:.3e}, allowed {tol[i]:.3e})", {"case": c})
-                    continue
+                if np.all(np.isfinite(UH[i])) and dev[i] > tol[i]:
+                    drifted("Planar", f"{label}: get_act_scale() = {UH[i].tolist()}, the projection of u onto w.u = m(w.u) is {exp_uh[i].tolist()} "
+                                      f"(|difference| {dev[i]:.3e}, allowed {tol[i]:.3e})")
                 ok = np.isfinite(wuh[i]) and all(1 + s * wuh[i] > 0 for s in slopes)
                 if not ok:
                     rep.violation({"clause": "guard PlanarInvertible", "cfg.cause": planar_cause(Wr[i], Ur[i], float(wuh[i]), slopes, eps),
@@ -146,11 +151,7 @@ def replay(rep: Report, cases: list, thorough: bool):
                 continue
             for which, got in outs.items():
                 if got.shape != exp_pos.shape or not np.all(np.abs(got - exp_pos) <= tol * (hi - lo)):
-                    rep.violation({"clause": "guard KnotsStrictlyIncreasing", "cfg.cause": "knot positions differ from the cumulative floored softmax widths",
-                                   "case": c, "dtype": dtype.__name__, "which": which},
-                                  f"{label}: {which} = {got.tolist()}; lo + (hi - lo) cumsum((p + adj/K)/(1 + adj), first halved), padded, is {exp_pos.tolist()}",
-                                  {"case": c})
-                    continue
+                    drifted("Knots", f"{label}: {which} = {got.tolist()}; lo + (hi - lo) cumsum((p + adj/K)/(1 + adj), first halved), padded, is {exp_pos.tolist()}")
                 if got[0] != lo or got[-1] != hi:
                     rep.violation({"clause": "guard KnotsSpanTheInterval", "case": c, "dtype": dtype.__name__, "which": which},
                                   f"{label}: {which} runs from {got[0]!r} to {got[-1]!r}, not from {lo} to {hi}", {"case": c})
@@ -178,7 +179,9 @@ def replay(rep: Report, cases: list, thorough: bool):
             norms = np.linalg.norm(got, axis=1)
             for i, c in enumerate(wn):
                 rep.count(1, ("constraints", "wnorm", json.dumps(c, sort_keys=True), dtype.__name__))
-                if not (np.all(np.isfinite(got[i])) and abs(norms[i] - Sr[i, 0]) <= rtol * Sr[i, 0] and np.all(np.abs(got[i] - exp[i]) <= rtol * Sr[i, 0])):
+                if np.all(np.isfinite(got[i])) and abs(norms[i] - Sr[i, 0]) <= rtol * Sr[i, 0] and not np.all(np.abs(got[i] - exp[i]) <= rtol * Sr[i, 0]):
+                    drifted("WNorm", f"row {Wr[i].tolist()}: unwrapped row {got[i].tolist()} keeps its norm but is not scale w / |w| = {exp[i].tolist()}")
+                if not (np.all(np.isfinite(got[i])) and abs(norms[i] - Sr[i, 0]) <= rtol * Sr[i, 0]):
                     rep.violation({"clause": "guard RowsKeepTheirNorm", "cfg.cause": "", "case": c, "dtype": dtype.__name__},
                                   f"WeightNormalization({dtype.__name__}) row {Wr[i].tolist()} with norm parameter {Sr[i, 0]!r}: unwrapped row "
                                   f"{got[i].tolist()} has norm {norms[i]!r}; scale w / |w| is {exp[i].tolist()}", {"case": c})
@@ -194,7 +197,9 @@ def replay(rep: Report, cases: list, thorough: bool):
             d = np.asarray(unwrap(sp).derivatives).astype(np.float64)
             exp = _softplus(grid) + mval
             tol = 1e-12 if dtype == jnp.float64 else 1e-5
-            if not (np.all(d >= mval * (1 - (0 if dtype == jnp.float64 else 1e-6))) and np.all(np.abs(d - exp) <= tol * (1 + exp))):
+            if not np.all(np.abs(d - exp) <= tol * (1 + exp)):
+                drifted("Floor", f"min_derivative={mval}: derivatives {d.tolist()}; softplus(raw) + min_derivative is {exp.tolist()}")
+            if not np.all(d >= mval * (1 - (0 if dtype == jnp.float64 else 1e-6))):
                 rep.violation({"clause": "guard DerivativesAtLeastMin", "cfg.cause": "", "case": c, "dtype": dtype.__name__},
                               f"RationalQuadraticSpline(min_derivative={mval}, {dtype.__name__}) raw derivatives {grid.tolist()}: derivatives "
                               f"{d.tolist()}; softplus(raw) + min_derivative is {exp.tolist()}", {"case": c})
@@ -203,7 +208,9 @@ def replay(rep: Report, cases: list, thorough: bool):
                 a2 = eqx.tree_at(lambda q: q.scale.arr, aff, jnp.asarray(raw, dtype))
                 s = float(np.asarray(unwrap(a2).scale))
                 e = float(_softplus(raw) + mval)
-                if not (s > 0 and s >= mval * (1 - 1e-6) and abs(s - e) <= tol * (1 + e)):
+                if s > 0 and not (s >= mval * (1 - 1e-6) and abs(s - e) <= tol * (1 + e)):
+                    drifted("Floor", f"flows' min-scale affine (min_scale={mval}) raw {raw}: scale {s!r}; softplus(raw) + min_scale is {e!r}")
+                if not s > 0:
                     rep.violation({"clause": "guard StrictlyPositive", "cfg.cause": "", "case": c, "dtype": dtype.__name__, "raw": float(raw)},
                                   f"flows' min-scale affine (min_scale={mval}, {dtype.__name__}) raw {raw}: scale {s!r}; softplus(raw) + min_scale is {e!r}",
                                   {"case": c})
@@ -220,7 +227,10 @@ def replay(rep: Report, cases: list, thorough: bool):
                 lw = np.asarray(unwrap(mix).log_normalized_weights).astype(np.float64)
                 got = np.exp(lw)
                 exp = a / a.sum()
-                if not (np.all(np.abs(got - exp) <= tol) and abs(got.sum() - 1) <= tol * 4):
+                if not np.all(np.abs(got - exp) <= tol):
+                    drifted("Mixture", f"raw log weights {np.asarray(raw).tolist()}: weights {got.tolist()}, softmax is {exp.tolist()}")
+                if not (np.all(got >= 0) and abs(got.sum() - 1) <= tol * 4):
                     rep.violation({"clause": "guard WeightsNormalised", "cfg.cause": "", "case": c, "dtype": dtype.__name__, "shift": shift},
                                   f"Mixture({dtype.__name__}) raw log weights {np.asarray(raw).tolist()}: weights {got.tolist()}, softmax is {exp.tolist()}",
                                   {"case": c})
+    rep.set("constraints_drift", drift)
